@@ -201,7 +201,7 @@ def run_scenario(sc, fail, stats, aspects=("carry", "traceback", "state", "retry
     def bad(aspect, what, k, key=None):
         ok[0] = False
         fail("%s [%s; history: %s]" % (what, describe(sc), " ".join(call_s(sc, w, x) for w, x in sc["calls"][:k + 1])),
-             dict(sc, calls=sc["calls"][:k + 1]), aspect, key)
+             {x: v for x, v in dict(sc, calls=sc["calls"][:k + 1]).items() if x != "note"}, aspect, key)
 
     ex = mx.core.mxsys.executor
     close_all()
